@@ -170,8 +170,13 @@ impl SetPropertyByValue {
 
         // Fast Path:
         'fast_path: {
+            // The dense store is `OrdinarySet` only when the receiver is the array itself
+            // (`super[i] = v` passes `this` as the receiver of a [[Set]] on the home object's prototype).
             if object.is_array()
                 && let PropertyKey::Index(index) = &key
+                && receiver
+                    .as_object()
+                    .is_some_and(|receiver| crate::JsObject::equals(&receiver, &object))
             {
                 let mut object_borrowed = object.borrow_mut();
 
